@@ -588,6 +588,8 @@ func addTransceiverSDP(
 		// validation failed.
 		// In addition this makes our SDP compliant with RFC 4566 Section 5.7:
 		// https://datatracker.ietf.org/doc/html/rfc4566#section-5.7
+		// The rejected section keeps its mid, the remote peer matches it with the
+		// section it offered.
 		descr.WithMedia(&sdp.MediaDescription{
 			MediaName: sdp.MediaName{
 				Media:   transceiver.kind.String(),
@@ -602,6 +604,7 @@ func addTransceiverSDP(
 					Address: "0.0.0.0",
 				},
 			},
+			Attributes: []sdp.Attribute{{Key: sdp.AttrKeyMID, Value: midValue}},
 		})
 
 		return false, nil
